@@ -4,10 +4,10 @@ package main
 
 import (
 	"context"
-	"errors"
 	"crypto/sha256"
 	"encoding/hex"
 	"encoding/json"
+	"errors"
 	"fmt"
 	"os"
 	"path/filepath"
@@ -217,19 +217,19 @@ func c11DuckDB() *database.DuckDB {
 }
 
 type c11world struct {
-	p    *C11Plan
-	cfg  simrt.Config
-	r0   time.Time
-	pd   *pod
-	rh   *api.RetentionHandler
+	p   *C11Plan
+	cfg simrt.Config
+	r0  time.Time
+	pd  *pod
+	rh  *api.RetentionHandler
 	// files whose metadata read the injector failed during the run being judged
 	metaFailed map[string]bool
-	app  *fiber.App
-	hnd  fasthttp.RequestHandler
-	ids  []int64 // policy ids
-	out  *simkit.Outcome
-	rows map[string][]rowAt // rel path -> rows (cache; files are immutable)
-	nSeq int
+	app        *fiber.App
+	hnd        fasthttp.RequestHandler
+	ids        []int64 // policy ids
+	out        *simkit.Outcome
+	rows       map[string][]rowAt // rel path -> rows (cache; files are immutable)
+	nSeq       int
 	// target is the planned instant of the current operation
 	target time.Time
 }
